@@ -1088,6 +1088,25 @@ Lemma legacy_env_refuted :
   legacy_env_scan (w ["-iu"; "ls"; "rm"; "x"]) = w ["ls"; "rm"; "x"] /\ env_exec (w ["-iu"; "ls"; "rm"; "x"]) = Some [w ["rm"; "x"]].
 Proof. vm_compute. split; reflexivity. Qed.
 
+(* ================================================================== env -S with a comment
+   repair of `env -S '#' rm x` (approved as an empty command line; env ends the STRING at the comment and runs rm x):
+   a -S/--split-string value that holds a "#" is asked about, whatever words follow *)
+Lemma env_S_comment kept value rest : mem_ch 35 value = true ->
+  env_scan kept (s2l "-S" :: value :: rest) = HAsk /\ env_scan kept (s2l "--split-string" :: value :: rest) = HAsk /\
+  env_scan kept (s2l "-iS" :: value :: rest) = HAsk /\ env_scan kept (s2l "--split" :: value :: rest) = HAsk.
+Proof.
+  intro H. repeat split; cbn [env_scan]; cbv -[env_S env_scan]; unfold env_S; rewrite H; reflexivity.
+Qed.
+Lemma env_S_plain kept value rest : mem_ch 35 value = false ->
+  env_scan kept (s2l "-S" :: value :: rest) = HString (join [32] (value :: rest)).
+Proof.
+  intro H. cbn [env_scan]; cbv -[env_S env_scan]; unfold env_S; rewrite H; reflexivity.
+Qed.
+Lemma env_S_comment_witness :
+  modelled (w ["env"; "-S"; "#"; "rm"; "x"]) = Some HAsk /\ modelled (w ["env"; "-S#"; "rm"; "x"]) = Some HAsk /\
+  modelled (w ["env"; "-S"; "ls #"; "rm"; "x"]) = Some HAsk /\ modelled (w ["env"; "-S"; "ls -la"; "x"]) = Some (HString (s2l "ls -la x")).
+Proof. vm_compute. repeat split; reflexivity. Qed.
+
 (* ================================================================== xargs *)
 (* without a replace option the handler judges the command with one more, unknown, argument *)
 Lemma xargs_extract c0 cs :
